@@ -28,7 +28,7 @@ ASSUMPTIONS = [
 SHARDS = {"quick": 8, "thorough": 16}
 TIMEOUT = {"quick": 600, "thorough": 3600}
 MIN_CASES = {"quick": 100_000, "thorough": 1_000_000}
-REQUIRED_COUNTERS = ["messages_compared", "events_seen", "responses_seen", "chunked_messages", "exhaustive_streams"]
+REQUIRED_COUNTERS = ["messages_compared", "events_seen", "responses_seen", "chunked_messages", "exhaustive_streams", "encrypted_streams"]
 
 CODES = [200, 204, 207, 400, 404, 422, 470, 500]
 TRICKY = [b"\r", b"\n", b"\r\n", b"\r\n\r\n", b"0\r\n\r\n", b"5\r\nab", b"HTTP/1.1 200 OK\r\n", b"ff", b"1a\r\n", b"EVENT/1.0 200 OK\r\n\r\n"]
@@ -236,6 +236,49 @@ def explore(ctx, proto_cls, seq_id, rng, small: bool) -> None:
     feed_and_compare(ctx, proto_cls, stream, wants, cuts, seq_id)
 
 
+def secure_stream(rng, small: bool):
+    """The same message sequences inside an encrypted session: (protocol factory, ciphertext stream, wants, frame ends)."""
+    from aiohomekit.controller.ip.connection import SecureHomeKitProtocol
+    from vf.ref import session as refsession
+
+    stream, wants = build_sequence(rng, small)
+    a2c, c2a = rng.randbytes(32), rng.randbytes(32)
+    sizes = rng.choice([[1024], [16], [1, 40], [rng.randint(1, 200) for _ in range(5)], [len(stream) // 2 + 1]])
+    frames = refsession.Encoder(a2c).frames(stream, sizes)
+    ends, pos = [], 0
+    for f in frames:
+        pos += len(f)
+        ends.append(pos)
+    return (lambda conn: SecureHomeKitProtocol(conn, a2c, c2a)), b"".join(frames), wants, ends
+
+
+def explore_secure(ctx, seq_id, rng, small: bool) -> None:
+    """Segmentation of the ENCRYPTED stream: reads that end inside a frame, right after one, or carry several frames plus
+    the beginning of the next must yield the same messages."""
+    factory, enc, wants, ends = secure_stream(rng, small)
+    n = len(enc)
+    ctx.count("encrypted_streams")
+    sample = {"encrypted_len": n, "frames": len(ends), "messages": [(w["kind"], w["code"], w["mode"], len(w["body"])) for w in wants]}
+    ctx.case(enc, (), nontrivial=False)
+    if not feed_and_compare(ctx, factory, enc, wants, (), seq_id):
+        return
+    step = 1 if n < 700 else max(1, n // 700)
+    for c1 in range(1, n, step):
+        ctx.case(enc, (c1,), sample={**sample, "cuts": [c1]}, kind="enc-1cut")
+        if not feed_and_compare(ctx, factory, enc, wants, (c1,), seq_id):
+            return
+    for _ in range(ctx.pick(30, 150)):
+        k = rng.randint(2, 8)
+        cuts = set(rng.sample(range(1, n), min(k, n - 1)))
+        if len(ends) > 1:
+            e = rng.choice(ends[:-1])
+            cuts.add(min(n - 1, e + rng.choice([0, 1, 2, 3, 17])))  # at / just past a frame boundary
+        cuts = tuple(sorted(c for c in cuts if 0 < c < n))
+        ctx.case(enc, cuts, sample={**sample, "cuts": list(cuts)}, kind="enc-multicut")
+        if not feed_and_compare(ctx, factory, enc, wants, cuts, seq_id):
+            return
+
+
 async def _main(ctx, only=None):
     from aiohomekit.controller.ip.connection import InsecureHomeKitProtocol
 
@@ -244,6 +287,11 @@ async def _main(ctx, only=None):
     if only is not None:
         kind, k = only["seq"]
         rng = ctx.grng("C07", kind, k)
+        if kind.startswith("secure"):
+            factory, enc, wants, _ = secure_stream(rng, kind == "secure-small")
+            ctx.case(enc, tuple(only["cuts"]))
+            feed_and_compare(ctx, factory, enc, wants, tuple(only["cuts"]), only["seq"])
+            return
         stream, wants = build_sequence(rng, kind == "small")
         ctx.case(stream, tuple(only["cuts"]))
         feed_and_compare(ctx, InsecureHomeKitProtocol, stream, wants, tuple(only["cuts"]), only["seq"])
@@ -254,6 +302,10 @@ async def _main(ctx, only=None):
     for k in range(n_large):
         if ctx.mine(k):
             explore(ctx, InsecureHomeKitProtocol, ("large", k), ctx.grng("C07", "large", k), False)
+    for k in range(ctx.pick(160, 3000)):
+        if ctx.mine(k):
+            kind = "secure-small" if k % 2 else "secure-large"
+            explore_secure(ctx, (kind, k), ctx.grng("C07", kind, k), kind == "secure-small")
     ctx.exhaustive_parts["all single and double cuts of every stream < 130 bytes"] = True
 
 
